@@ -299,3 +299,211 @@ def self_attr(node: ast.AST, recv: str = "self") -> Optional[str]:
     if isinstance(node, ast.Attribute) and isinstance(node.value, ast.Name) and node.value.id == recv:
         return node.attr
     return None
+
+
+# ======================================================================================================
+# Path-enumerating symbolic executor for small `if`-structured functions (C18): values are None, python
+# constants, `Sym`, ('add', a, b), marker strings, or OPAQUE.  Tests that cannot be decided fork the path.
+class SymV:
+    def __init__(self, name):
+        self.name = name
+
+    def __repr__(self):
+        return f"‹{self.name}›"
+
+    def __eq__(self, o):
+        return isinstance(o, SymV) and o.name == self.name
+
+    def __hash__(self):
+        return hash(("SymV", self.name))
+
+
+class _Opaque:
+    def __repr__(self):
+        return "‹?›"
+
+
+OPAQUE = _Opaque()
+
+
+class PathEnd(Exception):
+    pass
+
+
+class SymExec:
+    """hooks: attr(node, env, sx) / call(node, env, sx) -> value or NotImplemented.
+    `events` is a per-path list the hooks may append to (e.g. where() predicates)."""
+
+    MAX_PATHS = 20000
+
+    def __init__(self, attr=None, call=None, what="function"):
+        self.attr = attr
+        self.call = call
+        self.what = what
+        self.paths = []  # (kind, value, env, events)
+
+    # ---- expressions
+    def ev(self, n, env, events):
+        if isinstance(n, ast.Constant):
+            return n.value
+        if isinstance(n, ast.Name):
+            return env.get(n.id, OPAQUE)
+        if isinstance(n, ast.Attribute):
+            if self.attr is not None:
+                r = self.attr(n, env, self, events)
+                if r is not NotImplemented:
+                    return r
+            self.ev(n.value, env, events)
+            return OPAQUE
+        if isinstance(n, ast.Call):
+            if self.call is not None:
+                r = self.call(n, env, self, events)
+                if r is not NotImplemented:
+                    return r
+            if isinstance(n.func, ast.Attribute):
+                self.ev(n.func.value, env, events)
+            for a in n.args:
+                self.ev(a.value if isinstance(a, ast.Starred) else a, env, events)
+            for k in n.keywords:
+                self.ev(k.value, env, events)
+            return OPAQUE
+        if isinstance(n, ast.BinOp):
+            a, b = self.ev(n.left, env, events), self.ev(n.right, env, events)
+            if isinstance(n.op, ast.Add):
+                if isinstance(a, str) and isinstance(b, str):
+                    return a + b
+                if isinstance(a, str) or isinstance(b, str):
+                    return (a if isinstance(a, str) else repr(a)) + (b if isinstance(b, str) else repr(b))
+                if a is OPAQUE or b is OPAQUE:
+                    return OPAQUE
+                return ("add", a, b)
+            if isinstance(n.op, ast.Mod) and isinstance(a, str):
+                args = b if isinstance(b, tuple) else (b,)
+                try:
+                    return a % tuple(x if isinstance(x, str) else repr(x) for x in args)
+                except Exception:
+                    return OPAQUE
+            return OPAQUE
+        if isinstance(n, ast.Tuple):
+            return tuple(self.ev(e, env, events) for e in n.elts)
+        if isinstance(n, ast.IfExp):
+            t = self.truth(n.test, env, events)
+            if t is True:
+                return self.ev(n.body, env, events)
+            if t is False:
+                return self.ev(n.orelse, env, events)
+            a, b = self.ev(n.body, env, events), self.ev(n.orelse, env, events)
+            return a if a == b else (f"‹{a}|{b}›" if isinstance(a, str) and isinstance(b, str) else OPAQUE)
+        if isinstance(n, (ast.Compare, ast.BoolOp, ast.UnaryOp)):
+            t = self.truth(n, env, events)
+            return OPAQUE if t is None else t
+        for c in ast.iter_child_nodes(n):
+            if isinstance(c, ast.expr):
+                self.ev(c, env, events)
+        return OPAQUE
+
+    def truth(self, n, env, events):
+        """three-valued: True / False / None (unknown)."""
+        if isinstance(n, ast.UnaryOp) and isinstance(n.op, ast.Not):
+            t = self.truth(n.operand, env, events)
+            return None if t is None else (not t)
+        if isinstance(n, ast.BoolOp):
+            vals = [self.truth(v, env, events) for v in n.values]
+            if isinstance(n.op, ast.And):
+                if any(v is False for v in vals):
+                    return False
+                return True if all(v is True for v in vals) else None
+            if any(v is True for v in vals):
+                return True
+            return False if all(v is False for v in vals) else None
+        if isinstance(n, ast.Compare) and len(n.ops) == 1 and isinstance(n.ops[0], (ast.Is, ast.IsNot)):
+            a, b = self.ev(n.left, env, events), self.ev(n.comparators[0], env, events)
+            if a is OPAQUE or b is OPAQUE:
+                return None
+            if b is None or a is None:
+                same = (a is None and b is None)
+                return same if isinstance(n.ops[0], ast.Is) else not same
+            return None
+        v = self.ev(n, env, events) if not isinstance(n, (ast.Compare, ast.BoolOp, ast.UnaryOp)) else OPAQUE
+        if v is OPAQUE:
+            return None
+        if v is None:
+            return False
+        if isinstance(v, (SymV, tuple)):
+            return True
+        if isinstance(v, (bool, int, str)):
+            return bool(v)
+        return None
+
+    # ---- statements
+    def run(self, stmts, env):
+        self.paths = []
+        self._block(list(stmts), dict(env), [], [])
+        return self.paths
+
+    def _finish(self, kind, value, env, events):
+        if len(self.paths) >= self.MAX_PATHS:
+            raise Unsupported(f"{self.what}: more than {self.MAX_PATHS} paths")
+        self.paths.append((kind, value, env, events))
+
+    def _block(self, stmts, env, events, cont):
+        """run stmts then the continuation stack `cont` (list of statement lists)."""
+        i = 0
+        while True:
+            if i >= len(stmts):
+                if not cont:
+                    self._finish("fall", None, env, events)
+                    return
+                stmts, cont, i = cont[-1], cont[:-1], 0
+                continue
+            st = stmts[i]
+            i += 1
+            if isinstance(st, ast.If):
+                t = self.truth(st.test, env, events)
+                rest = stmts[i:]
+                if t is None:
+                    self._block(list(st.body), dict(env), list(events), cont + [rest])
+                    self._block(list(st.orelse), dict(env), list(events), cont + [rest])
+                    return
+                stmts, i = list(st.body if t else st.orelse) + rest, 0
+                continue
+            if isinstance(st, ast.Return):
+                v = self.ev(st.value, env, events) if st.value is not None else None
+                self._finish("return", v, env, events)
+                return
+            if isinstance(st, ast.Raise):
+                self._finish("raise", None, env, events)
+                return
+            if isinstance(st, (ast.Assign, ast.AnnAssign)):
+                if isinstance(st, ast.AnnAssign) and st.value is None:
+                    continue
+                v = self.ev(st.value, env, events)
+                targets = st.targets if isinstance(st, ast.Assign) else [st.target]
+                for t in targets:
+                    if isinstance(t, ast.Name):
+                        env[t.id] = v
+                    elif isinstance(t, (ast.Tuple, ast.List)) and isinstance(v, tuple) and len(v) == len(t.elts):
+                        for tt, vv in zip(t.elts, v):
+                            if isinstance(tt, ast.Name):
+                                env[tt.id] = vv
+                    elif isinstance(t, (ast.Tuple, ast.List)):
+                        for tt in t.elts:
+                            if isinstance(tt, ast.Name):
+                                env[tt.id] = OPAQUE
+                continue
+            if isinstance(st, ast.AugAssign):
+                if isinstance(st.target, ast.Name):
+                    env[st.target.id] = self.ev(ast.BinOp(left=st.target, op=st.op, right=st.value), env, events)
+                continue
+            if isinstance(st, ast.Expr):
+                self.ev(st.value, env, events)
+                continue
+            if isinstance(st, (ast.Assert, ast.Pass)):
+                continue
+            if isinstance(st, ast.For):
+                # loops may not touch anything we track: every name they bind becomes opaque
+                for n in ast.walk(st):
+                    if isinstance(n, ast.Name) and isinstance(n.ctx, ast.Store):
+                        env[n.id] = OPAQUE
+                continue
+            raise Unsupported(f"{self.what}: statement kind {type(st).__name__}")
